@@ -140,3 +140,68 @@ func kindOfFirst(blocks []*cm.RootBlock) any {
 	}
 	return blocks[0].Kind()
 }
+
+// ---- HTML blocks (spec 4.6) -----------------------------------------------------------
+
+// htmlLineMenu: lines that satisfy each of the seven start conditions, their
+// end markers, near misses, plain text and a blank line. No line begins any
+// other block construct or contains inline syntax other than raw HTML.
+var htmlLineMenu = []string{
+	"", "x",
+	"<script>", "<pre x>", "<STYLE", "<textarea>y", "<scriptx>", "</script>", "x</pre>y",
+	"<!--", "-->", "<!-- a -->",
+	"<?", "?>",
+	"<!A", "a>",
+	"<![CDATA[", "]]>",
+	"<div>", "</div>", "<div", "<DIV/>", "<divx>", "  <div>",
+	"<a>", "</a>", "<a b=\"c\">", "<a> x", "<a", "b>",
+}
+
+func c06HTMLBlockDriver(x *X, lines []string) {
+	doc := strings.Join(lines, "\n") + "\n"
+	in := []byte(doc)
+	wantRaw, contested := ref.HTMLBlockDoc(lines)
+	if contested {
+		x.Count("html_block_docs_skipped_contested_condition_7_name")
+		return
+	}
+	want := squeezeLines(wantRaw)
+	for vi, v := range append([][]byte{in}, eolVariants(in)...) {
+		blocks, refs := cm.Parse(clone(v))
+		out := renderCfg(blocks, refs, cm.SoftBreakPreserve, false)
+		out = strings.ReplaceAll(strings.ReplaceAll(out, "\r\n", "\n"), "\r", "\n")
+		x.Validated()
+		if got := squeezeLines(out); got != want {
+			x.Fail("html-block-structure", fmt.Sprintf("html-block-lines/eol=%d", vi), v, "document %q renders (normalized) %q; the start and end conditions of spec 4.6 give %q", v, got, want)
+			return
+		}
+	}
+	kinds := 0
+	for _, l := range lines {
+		if k := ref.HTMLBlockStart(l); k > 0 {
+			kinds |= 1 << k
+		}
+	}
+	if kinds != 0 {
+		x.Nontrivial()
+	}
+	x.Outcome(tree.Hash64(want))
+	x.Sample(fmt.Sprintf("%q -> %s", doc, truncate(want, 100)))
+}
+
+// squeezeLines drops empty lines and the line structure between blocks: the
+// comparison of HTML block documents is about which lines form which block
+// (tags and text verbatim, paragraphs wrapped in <p>), not about blank lines.
+func squeezeLines(s string) string {
+	var out []string
+	for _, l := range strings.Split(s, "\n") {
+		// white space at the end of a line is not significant in HTML (the library
+		// keeps a single trailing space before a soft break; C06 compares modulo
+		// insignificant white space everywhere)
+		l = strings.TrimRight(l, " \t")
+		if l != "" {
+			out = append(out, l)
+		}
+	}
+	return strings.Join(out, "\n")
+}
